@@ -78,6 +78,7 @@ struct Plan
     int time_adv_pct = 20;
     int clock_yield_pct = 0;
     int io_yield_pct = 0;
+    int instr_yield_pp10k = 0; // function-entry decision points inside the library (C02 slice "two pipelines")
     int max_decisions = 20000;
     int stall_tid = -1, stall_from = 0, stall_len = 0;
     std::vector<uint8_t> choices;
